@@ -387,6 +387,28 @@ def triage_cell(schema, cell, orig_xml, back_xml, err=""):
     a = flat(orig_xml)
     if res == "R" and wd in ("trim", "all-tag") and err.startswith("Mandatory choice") and a is not None:
         # F46 in a mandatory choice: the dropped default-valued leaf was what selected the case
+        b = flat(back_xml)
+        if b is not None:
+            # what the (parse-only) re-read lacks must be exactly default-valued content that selected a case
+            import collections
+            a2 = collections.Counter((p, t) for (p, t, d) in a.elements())
+            b2 = collections.Counter((p, t) for (p, t, d) in b.elements())
+            kinds = set()
+            for (p, t) in (a2 - b2).elements():
+                n = sn(p)
+                if n is None:
+                    return None
+                if n.kind in ("container", "list") or t is None:
+                    continue          # an inner node that became empty / disappeared with its only content
+                if n.kind == "leaflist" and t.encode() in n.dflts and in_nondefault_case(n):
+                    kinds.add("F17")  # an explicit leaf-list instance equal to one of the defaults is treated as default
+                elif n.kind == "leaf" and n.dflt is not None and t.encode() == n.dflt and in_nondefault_case(n):
+                    kinds.add("F46")
+                else:
+                    return None
+            if "F17" in kinds:
+                return "F17"
+            return "F46" if kinds else None
         for (p, t, d) in a.elements():
             n = sn(p)
             if n is not None and n.kind == "leaf" and n.dflt is not None and t is not None and t.encode() == n.dflt and in_nondefault_case(n):
@@ -414,8 +436,8 @@ def triage_cell(schema, cell, orig_xml, back_xml, err=""):
         for (p, t) in extra2.elements():
             # whatever re-appears must be implicit default content (of the leaf-list itself, or of a now selected default case)
             n = sn(p)
-            if t is None:
-                continue
+            if t is None or (n is not None and n.kind in ("container", "list")):
+                continue          # (an inner node that lost all its content shows up as an empty element)
             if n is None:
                 return None
             if n.kind == "leaflist" and t.encode() in n.dflts:
@@ -426,7 +448,7 @@ def triage_cell(schema, cell, orig_xml, back_xml, err=""):
                 return None
         for (p, t) in missing2.elements():
             n = sn(p)
-            if t is None:
+            if t is None or (n is not None and n.kind in ("container", "list")):
                 continue          # an ancestor that disappeared with its only content
             if n is None:
                 return None
